@@ -11,12 +11,15 @@ def run(ctx):
     ctx.rule("R-KEY-ROLE", "the busy test and the session use the key of the pair the transfer really occupies", floor=10)
     ctx.rule("R-REARM", "every send session is eventually deleted or re-armed", floor=16)
     ctx.rule("R-WAKE", "state changes that request immediate action wake the job thread", floor=6)
+    ctx.rule("R-PEER-255", "a frame from source address 255 cannot finish a broadcast session (its number would go to the wrong pool)", floor=6)
+    from rules import robust as R
     for fd in (False, True):
         L = T.Layer(ctx, fd=fd)
         T.refuse(ctx, L)
         S.key_role(ctx, L)
         TM.rearm(ctx, L)
         TM.wake(ctx, L)
+        R.bam_key_guard(ctx, L)
         if fd:
             TM.pool_pair(ctx, L)
             TM.pool_owner(ctx, L)
